@@ -231,6 +231,7 @@ type caseInfoA struct {
 	Skipped  int
 	MaxCands int
 	Trace    []string // per executed step: op + completions summary (for the distinct key)
+	Detail   []string // per executed plan step: the calls that returned, "#id n=N class"
 	Known    string
 }
 
@@ -373,6 +374,11 @@ func runPlanA(t *testing.T, plan []step) (viol string, ci caseInfoA) {
 				cs = append(cs, fmt.Sprintf("%s%s%s", oc.kind.String()[:2], nc, classify(oc.err)))
 			}
 			if !isClosing {
+				var ds []string
+				for _, oc := range obs {
+					ds = append(ds, fmt.Sprintf("#%d n=%d %s", oc.id, oc.n, classify(oc.err)))
+				}
+				ci.Detail = append(ci.Detail, strings.Join(ds, ", "))
 				ci.Trace = append(ci.Trace, fmt.Sprintf("%d%d[%s]", st.Op, st.End, strings.Join(cs, ",")))
 			}
 		}
@@ -700,5 +706,69 @@ func TestReplayPlan(t *testing.T) {
 		}
 	default:
 		t.Fatalf("unknown mode %q", doc.Mode)
+	}
+}
+
+// TestFixedPlansA runs hand-written plans whose outcome is spelled out from the documentation, so
+// that the model's verdicts (and the facts behind the evidence labels) are pinned independently of
+// the generator.
+func TestFixedPlansA(t *testing.T) {
+	const A, B = 0, 1
+	type fixed struct {
+		name string
+		plan []step
+		want []string // calls returning after each step
+		fact func(facts) bool
+	}
+	cases := []fixed{
+		{"partial write then write deadline", []step{
+			{Op: opWrite, End: A, N: 10}, {Op: opRead, End: B, N: 5}, {Op: opSetWD, End: A, DL: dlFuture, D: 3}, {Op: opAdvance, D: 4}},
+			[]string{"", "#1 n=5 nil", "", "#0 n=5 timeout"},
+			func(f facts) bool { return f.Partial && f.DlPending && f.DlPartial }},
+		{"half close, drain, reverse direction keeps working", []step{
+			{Op: opWrite, End: A, N: 6}, {Op: opRead, End: B, N: 6}, {Op: opCloseWrite, End: A}, {Op: opRead, End: B, N: 4},
+			{Op: opWrite, End: B, N: 3}, {Op: opRead, End: A, N: 8}, {Op: opWrite, End: A, N: 1}},
+			[]string{"", "#0 n=6 nil, #1 n=6 nil", "", "#2 n=0 EOF", "", "#3 n=3 nil, #4 n=3 nil", "#5 n=0 closed"},
+			func(f facts) bool { return f.HalfReverse }},
+		{"CloseRead fails the peer's blocked and later writes", []step{
+			{Op: opWrite, End: A, N: 4}, {Op: opCloseRead, End: B}, {Op: opWrite, End: A, N: 2}, {Op: opRead, End: B, N: 2},
+			{Op: opWrite, End: B, N: 2}, {Op: opRead, End: A, N: 2}},
+			[]string{"", "#0 n=0 closed", "#1 n=0 closed", "#2 n=0 closed", "", "#3 n=2 nil, #4 n=2 nil"},
+			func(f facts) bool { return f.ClosePending && f.HalfReverse }},
+		{"expired deadline fails calls until it is refreshed", []step{
+			{Op: opSetRD, End: A, DL: dlLongAgo}, {Op: opRead, End: A, N: 1}, {Op: opSetRD, End: A, DL: dlZero}, {Op: opRead, End: A, N: 2},
+			{Op: opWrite, End: B, N: 2}, {Op: opSetD, End: B, DL: dlFuture, D: 1}, {Op: opAdvance, D: 2}, {Op: opWrite, End: B, N: 1},
+			{Op: opSetWD, End: B, DL: dlFuture, D: 7}, {Op: opWrite, End: B, N: 1}, {Op: opRead, End: A, N: 1}},
+			[]string{"", "#0 n=0 timeout", "", "", "#1 n=2 nil, #2 n=2 nil", "", "", "#3 n=0 timeout", "", "", "#4 n=1 nil, #5 n=1 nil"},
+			func(f facts) bool { return f.Refreshed }},
+		{"zero-length write and read are matched", []step{
+			{Op: opWrite, End: A, N: 0}, {Op: opRead, End: B, N: 3}, {Op: opRead, End: B, N: 0}, {Op: opWrite, End: A, N: 2}, {Op: opRead, End: B, N: 2}},
+			[]string{"", "#0 n=0 nil, #1 n=0 nil", "", "#2 n=0 nil", "#3 n=2 nil, #4 n=2 nil"},
+			func(f facts) bool { return f.ZeroW && f.ZeroR }},
+		{"WriteTo drains until CloseWrite; a failing sink reports what it took", []step{
+			{Op: opWriteTo, End: B, N: -1}, {Op: opWrite, End: A, N: 5}, {Op: opWrite, End: A, N: 0}, {Op: opCloseWrite, End: A},
+			{Op: opWriteTo, End: A, N: 3}, {Op: opWrite, End: B, N: 2}, {Op: opWrite, End: B, N: 4}, {Op: opCloseRead, End: A}},
+			[]string{"", "#1 n=5 nil", "#2 n=0 nil", "#0 n=5 nil", "", "#4 n=2 nil", "#3 n=3 sink", "#5 n=1 closed"},
+			func(f facts) bool { return f.WriteToMoved && f.SinkFail }},
+	}
+	for _, c := range cases {
+		viol, ci := runPlanA(t, c.plan)
+		if viol != "" {
+			t.Errorf("%s: %s", c.name, viol)
+			continue
+		}
+		if ci.Skipped != 0 || len(ci.Detail) != len(c.want) {
+			t.Errorf("%s: executed %d steps (%d skipped), want %d", c.name, len(ci.Detail), ci.Skipped, len(c.want))
+			continue
+		}
+		for i := range c.want {
+			if ci.Detail[i] != c.want[i] {
+				t.Errorf("SIG=C15/A/fixed-plan %s: after step %d %s returned {%s}, documented outcome {%s}", c.name, i, c.plan[i], ci.Detail[i], c.want[i])
+			}
+		}
+		if !c.fact(ci.F) {
+			t.Errorf("%s: harness self-check: expected facts not recorded: %+v", c.name, ci.F)
+		}
+		recA.Label("fixed-plan", 1)
 	}
 }
